@@ -94,6 +94,22 @@ func (fp *fnPath) resolve(v ssa.Value) ssa.Value {
 	return v
 }
 
+// resolveAt follows phis like resolve, but only through phi blocks the path has entered before
+// (or at) block at: the value v denotes when control is in block at.
+func (fp *fnPath) resolveAt(v ssa.Value, at *ssa.BasicBlock) ssa.Value {
+	pos := -1
+	for k, b := range fp.blocks {
+		if b == at {
+			pos = k
+		}
+	}
+	if pos < 0 {
+		return fp.resolve(v)
+	}
+	sub := &fnPath{blocks: fp.blocks[:pos+1]}
+	return sub.resolve(v)
+}
+
 // contains reports whether instruction ins lies on the path.
 func (fp *fnPath) contains(ins ssa.Instruction) bool {
 	for _, b := range fp.blocks {
